@@ -112,6 +112,9 @@ impl Check for SimCheck {
         if ["C01", "C04", "C05", "C06"].contains(&self.id) {
             v.push(Part { name: "schedules", kind: PartKind::Random { cases: tier.pick(400, 6000), main: 80, ops: 2, oplen: 40, sched: 30 } });
         }
+        if self.id == "C19" {
+            v.push(Part { name: "pty", kind: PartKind::Random { cases: tier.pick(24, 300), main: 200, ops: 0, oplen: 0, sched: 0 } });
+        }
         if self.id == "C09" {
             v.push(Part { name: "showincludes", kind: PartKind::Enum { units: 9 } });
             v.push(Part { name: "bb-deps", kind: PartKind::Random { cases: tier.pick(64, 1000), main: 20, ops: 0, oplen: 0, sched: 0 } });
@@ -125,6 +128,11 @@ impl Check for SimCheck {
         v
     }
     fn run_random(&mut self, _part: &str, case: &Case, env: &mut Env) -> CaseOut {
+        if _part == "pty" {
+            let mut out = crate::bb::pty::run_pty_case(case, env, false);
+            out.viols.sort_by_key(|v| v.prop != "C19");
+            return out;
+        }
         if _part == "bb-deps" {
             return crate::bb::deps::run_deps_case(case, env, self.id);
         }
